@@ -241,3 +241,33 @@ where
             .map_err(BridgeError::SerializeView)
     }
 }
+
+#[cfg(crux_verif)]
+impl<A> Bridge<A>
+where
+    A: App,
+{
+    /// Registry entries by kind: (never, once, many).
+    pub fn verif_registry_kinds(&self) -> (usize, usize, usize) {
+        self.inner.verif_registry_kinds()
+    }
+
+    pub fn verif_core(&self) -> &Core<A> {
+        self.inner.verif_core()
+    }
+}
+
+#[cfg(crux_verif)]
+impl<A> BridgeWithSerializer<A>
+where
+    A: App,
+{
+    /// Registry entries by kind: (never, once, many).
+    pub fn verif_registry_kinds(&self) -> (usize, usize, usize) {
+        self.registry.verif_kinds()
+    }
+
+    pub fn verif_core(&self) -> &Core<A> {
+        &self.core
+    }
+}
